@@ -243,7 +243,7 @@ def observe(a, obs):
 
 
 def ll_verdict(a, x, y, col, row):
-    """ll2cr clause (north-up areas): finite x < 1e30 -> (col, row) is the area's own fractional index (u - 1/2, v - 1/2);
+    """ll2cr clause (any orientation): finite x < 1e30 -> (col, row) is the area's own fractional index (u - 1/2, v - 1/2);
     x >= 1e30 -> fill (NaN); a NaN coordinate must not come out as a finite index."""
     if x >= BIG:
         return None if (math.isnan(col) and math.isnan(row)) else "fill_expected"
@@ -361,7 +361,7 @@ def check_area_obs(ctx, a, ai, spec, obs, cases, agree):
         x, y, col, row = uh(m["x"][i]), uh(m["y"][i]), uh(m["cols"][i]), uh(m["rows"][i])
         if finite(col) and finite(row) and -1 <= col <= a.w + 1 and -1 <= row <= a.h + 1:
             counted += 1
-        kind = ll_verdict(a, x, y, col, row) if a.north_up else None
+        kind = ll_verdict(a, x, y, col, row)
         if kind:
             ll_ok = False
             ctx.add_failure("C18.ll2cr.%s" % kind, "ll2cr maps projected (%r, %r) on %s extent %s shape (%d, %d) to col/row (%r, %r): %s"
@@ -372,7 +372,7 @@ def check_area_obs(ctx, a, ai, spec, obs, cases, agree):
             inside += 1
         cases["ll"].append("(%s, %s, %s, %s, %s)" % (an, fhex(x), fhex(y), fhex(col), fhex(row)))
     if ll_ok:
-        if a.north_up and m["n"] < inside:
+        if m["n"] < inside:
             ctx.add_failure("C18.ll2cr.count", "ll2cr counts %d points in grid but %d lie strictly inside the extent" % (m["n"], inside),
                             {"area": dict(core, xy=spec.get("xy", []), lonlat=spec.get("lonlat", [])), "module": "ll2cr_count", "n": m["n"], "inside": inside})
         else:
@@ -411,7 +411,7 @@ def check_area_obs(ctx, a, ai, spec, obs, cases, agree):
                             % (x0, y0, a.crs, a.ext, a.h, a.w, cells), dict(replay_pt(i), module="agree", cells={k: str(v) for k, v in cells.items()}))
             continue
         agree[0] += 1
-        if a.north_up and cells["grid"] is not None:
+        if cells["grid"] is not None:
             col, row = uh(obs["ll2cr"]["cols"][i]), uh(obs["ll2cr"]["rows"][i])
             if not (finite(col) and finite(row) and (round(row), round(col)) == cells["grid"]):
                 ctx.add_failure("C18.agree.ll2cr", "ll2cr col/row (%r, %r) does not round to the cell %s of the other modules for (%r, %r)"
